@@ -7,8 +7,15 @@
   TRSM, `solvable`) against which EVERY configuration of the C library is compared do not mention any parameter at all.
   SSE2 on/off, caches on/off, OpenMP on/off are not visible in the model (they are modelled-not-verified): covered by
   running identical seeded cases under a lattice of real builds, each compared with the same model output.
+  Added (M4riProofs/Top.lean): the mirrors of the REAL routine stack take the cache triple (L1, L2, L3) and the SSE2 flag as
+  parameters (they select the Four-Russians `k`, the PLE / TRSM / TRTRI recursion cut-offs and the block sizes), and the
+  theorems below state the independence directly: for any two cache triples the reduced echelon form, the rank, the
+  solvability verdict, the kernel verdict, the triangular solves and the triangular inverse coincide, and the products
+  reconstructed from the PLUQ factors are A for both (`pluq_reconstructs`). The factor STORAGE itself is allowed to
+  differ between configurations (the property speaks of the reconstructed product).
 -/
 import M4riProofs.Props.C01
+import M4riProofs.Top
 namespace M4ri.Props.C12
 open M4ri M4ri.BMat
 
@@ -35,5 +42,68 @@ theorem naive_independent_of_switch (C A B : BMat) (clear : Bool) (thin thin' : 
     (hC : C.rows.size = C.nrows) (hr : C.nrows = A.nrows) (hc : C.ncols = B.ncols) (hl : A.ncols = B.nrows) :
     mulNaive C A B clear thin = mulNaive C A B clear thin' := by
   rw [Props.C01.mul_naive C A B clear thin hB hC hr hc hl, Props.C01.mul_naive C A B clear thin' hB hC hr hc hl]
+
+/-! ### independence of the cache triple and of SSE2, for the mirrors of the real routines -/
+section cfg
+open M4ri.BMat.Top
+variable (L1 L2 L3 L1' L2' L3' : Nat) (sse2 sse2' : Bool) {A : BMat} (hA : A.WF)
+include hA
+
+theorem rref_independent_of_caches :
+    PN.echelonizePluq (PR.pluqTop L1 L2 L3) A true = PN.echelonizePluq (PR.pluqTop L1' L2' L3') A true := by
+  rw [echelonizePluq_pluqTop L1 L2 L3 hA, echelonizePluq_pluqTop L1' L2' L3' hA]
+
+theorem rank_independent_of_caches : (PR.pluqTop L1 L2 L3 A).2.2.2 = (PR.pluqTop L1' L2' L3' A).2.2.2 := by
+  rw [pluqTop_rank L1 L2 L3 hA, pluqTop_rank L1' L2' L3' hA]
+
+theorem rank_profile_independent_of_caches :
+    (List.range (PR.pluqTop L1 L2 L3 A).2.2.2).map (fun i => (PR.pluqTop L1 L2 L3 A).2.2.1.getD i 0) =
+    (List.range (PR.pluqTop L1' L2' L3' A).2.2.2).map (fun i => (PR.pluqTop L1' L2' L3' A).2.2.1.getD i 0) := by
+  rw [(pluqTop_rank_profile L1 L2 L3 hA).2, (pluqTop_rank_profile L1' L2' L3' hA).2]
+
+/-- the products reconstructed from the PLUQ factors are `A` in every configuration -/
+theorem pluq_reconstructs :
+    IsPLUQ A (PR.pluqTop L1 L2 L3 A).1 (PR.pluqTop L1 L2 L3 A).2.1 (PR.pluqTop L1 L2 L3 A).2.2.1 (PR.pluqTop L1 L2 L3 A).2.2.2 ∧
+    IsPLUQ A (PR.pluqTop L1' L2' L3' A).1 (PR.pluqTop L1' L2' L3' A).2.1 (PR.pluqTop L1' L2' L3' A).2.2.1
+      (PR.pluqTop L1' L2' L3' A).2.2.2 := ⟨pluqTop_isPLUQ L1 L2 L3 hA, pluqTop_isPLUQ L1' L2' L3' hA⟩
+
+theorem solve_verdict_independent_of_caches {B : BMat} (hB : B.WF) (hBr : B.nrows = max A.nrows A.ncols) :
+    (SV.solveLeft (PR.pluqTop L1 L2 L3) A B true).1 = (SV.solveLeft (PR.pluqTop L1' L2' L3') A B true).1 := by
+  rw [solveLeft_top_verdict L1 L2 L3 hA hB hBr, solveLeft_top_verdict L1' L2' L3' hA hB hBr]
+
+theorem kernel_verdict_independent_of_caches :
+    (SV.kernelLeftPluq (PR.pluqTop L1 L2 L3) A = none) ↔ (SV.kernelLeftPluq (PR.pluqTop L1' L2' L3') A = none) := by
+  rw [kernelLeftPluq_top_none_iff L1 L2 L3 hA, kernelLeftPluq_top_none_iff L1' L2' L3' hA]
+
+end cfg
+
+section cfg2
+open M4ri.BMat.Top
+variable (L1 L2 L3 L1' L2' L3' : Nat) (sse2 sse2' : Bool)
+
+theorem trsm_lower_left_independent {L B : BMat} (hB : B.WF) (hLr : L.nrows = B.nrows) :
+    TB.trsmLowerLeftC (paramsOf L1 L2 L3 sse2) L B = TB.trsmLowerLeftC (paramsOf L1' L2' L3' sse2') L B := by
+  rw [trsm_lower_left L1 L2 L3 sse2 hB hLr, trsm_lower_left L1' L2' L3' sse2' hB hLr]
+
+theorem trsm_upper_left_independent {U B : BMat} (hB : B.WF) (hUr : U.nrows = B.nrows) :
+    TB.trsmUpperLeftC (paramsOf L1 L2 L3 sse2) U B = TB.trsmUpperLeftC (paramsOf L1' L2' L3' sse2') U B := by
+  rw [trsm_upper_left L1 L2 L3 sse2 hB hUr, trsm_upper_left L1' L2' L3' sse2' hB hUr]
+
+theorem trsm_upper_right_independent (h : Admissible L1 L2 L3) (h' : Admissible L1' L2' L3') {U B : BMat} (hB : B.WF)
+    (hUr : U.nrows = B.ncols) (hUc : U.ncols = B.ncols) (hd : 64 < B.ncols → ∀ i, i < B.ncols → U.get i i = true) :
+    TB.trsmUpperRightC (paramsOf L1 L2 L3 sse2) U B = TB.trsmUpperRightC (paramsOf L1' L2' L3' sse2') U B := by
+  rw [trsm_upper_right_adm L1 L2 L3 sse2 h hB hUr hUc hd, trsm_upper_right_adm L1' L2' L3' sse2' h' hB hUr hUc hd]
+
+theorem trtri_independent (h : Admissible L1 L2 L3) (h' : Admissible L1' L2' L3') {U : BMat} (hU : U.WF)
+    (hsq : U.ncols = U.nrows) (hlow : ∀ i j, j < i → U.get i j = false) (hdiag : ∀ i, i < U.nrows → U.get i i = true) :
+    TB.trtriUpperC (paramsOf L1 L2 L3 sse2) U = TB.trtriUpperC (paramsOf L1' L2' L3' sse2') U := by
+  rw [trtri_upper_adm L1 L2 L3 sse2 h hU hsq hlow hdiag, trtri_upper_adm L1' L2' L3' sse2' h' hU hsq hlow hdiag]
+
+end cfg2
+
+#check @M4ri.BMat.Top.all_routes_agree
+#check @M4ri.BMat.Top.echelonizeHybrid_top_full_eq
+#check @M4ri.BMat.Top.inv_m4ri
+#check @M4ri.BMat.PR.pleRussian_indep
 
 end M4ri.Props.C12
